@@ -169,6 +169,10 @@ pub struct DdCase {
     pub hist_seed: u64,
     pub viz_all: bool,
     pub props: Vec<String>,
+    /// earlier compilations use the SYMBOLIC instance and are handled the way the solvers handle them
+    /// (restricted then relaxed; the cut-set is drained only when the relaxed diagram is not exact)
+    pub hist_solver_like: bool,
+    pub hist_width: usize, // 0 = seeded 1..3
 }
 
 fn decs(v: &[(usize, usize)]) -> Vec<Decision> {
@@ -210,8 +214,38 @@ pub fn body<D: Dd>(c: &DdCase) {
     }
 
     let mut dd = D::default();
+    // ---- history, solver-like: same symbolic instance, sibling sub-problems, drained only when not exact
+    if c.history > 0 && c.hist_solver_like {
+        let mut r = Rng(c.hist_seed ^ 0x51b);
+        for _ in 0..c.history {
+            let hr = roots[r.below(roots.len() as u64) as usize].clone();
+            let hp: Vec<Decision> = decs(&hr.prefix);
+            let (hv, _, _) = match replay(&t, &hp, Some(hr.layer)) {
+                Ok(x) => x,
+                Err(e) => panic!("SYMX-INTERNAL: harness: history prefix must replay: {}", e),
+            };
+            let hsp = SubProblem { state: Arc::new(t.st(hr.layer, hr.mask)), value: hv, path: hp, ub: Cost::cmax(), depth: hr.layer };
+            let w = if c.hist_width > 0 { c.hist_width } else { 1 + r.below(3) as usize };
+            for ct in [CompilationType::Restricted, CompilationType::Relaxed] {
+                t.reset_monitor();
+                let inp = CompilationInput { comp_type: ct, problem: &t, relaxation: &t, ranking: &ranking, cutoff: &cutoff, max_width: w, residual: &hsp, best_lb: Cost::cmin(), cache: &cache, dominance: &dominance };
+                let res = dd.compile(&inp).expect("no cutoff was requested");
+                if res.is_exact {
+                    note("hist_exact_not_drained");
+                    if ct == CompilationType::Relaxed {
+                        // a relaxed diagram that merged but is exact by its best path: its cut-set stays in the object
+                        note("hist_relaxed_exact_undrained");
+                    }
+                    break;
+                }
+                if ct == CompilationType::Relaxed {
+                    dd.drain_cutset(|_| {});
+                }
+            }
+        }
+    }
     // ---- history: earlier compilations on the same object (concrete costs: no forks)
-    if c.history > 0 {
+    if c.history > 0 && !c.hist_solver_like {
         let mut hs = c.shape.clone();
         for l in 0..hs.n {
             for b in 0..hs.b {
